@@ -9,7 +9,9 @@ import MidnightZK.Model.C17.Params
 import MidnightZK.Model.C17.Zr
 import MidnightZK.Model.C17.Field
 import MidnightZK.Model.C17.Stdlib
+import MidnightZK.Model.C17.PkRead
 import MidnightZK.Gen.C17Consts
+import MidnightZK.Gen.C17Sites
 /-! Line-protocol handler of property C17. -/
 namespace MidnightZK.C17.Driver
 open MidnightZK MidnightZK.C17
@@ -141,6 +143,90 @@ def permAnswer (t k ncols : Nat) (copies : List (Nat × Nat × Nat × Nat)) : St
     let polys := buildPermutations t (dom k).omega delta n ncols (fun i j => get2 a.mapping (i, j))
     if polys.isEmpty then "-" else "/".intercalate (polys.map fmtFr)
 
+/-- `EvaluationDomain::new(degree, k)`: the constants key generation uses. -/
+def edom (k deg : Nat) : EDom Fr :=
+  let ek := extendedK k (deg - 1)
+  { k := k, extK := ek, dom := dom k, extOmega := fr (omegaN ek), zeta := fr zetaN, zetaSq := fr zetaN * fr zetaN }
+
+/-- Checksum of a vector: its value as a polynomial at the point `0x10001` (the harness computes
+the same sum on the real vectors), with its length. -/
+def ck (v : List Fr) : String := s!"{v.length}:{toHex (evalAt v (fr 0x10001)).val}"
+
+def cks (vs : List (List Fr)) : String := if vs.isEmpty then "-" else ",".intercalate (vs.map ck)
+
+/-- `pkfull`: the model's `ProvingKey::read` (`via=read`) or the tail of `keygen_pk`
+(`via=keygen`) on the stored part parsed from the real byte image, with the destructuring
+orders of the sources; every recomputed part by checksum. -/
+def pkFullAnswer (viaRead : Bool) (fmt : Format) (sh : Shape) (bf t : Nat) (bs : Bytes) : String :=
+  match readPK g1c frCodec version fmt sh bs with
+  | .error e => e.code
+  | .ok (pk, rest) =>
+    if rest.length ≠ 0 then "err trailing" else
+    let st : PKStored Bytes Fr :=
+      { vk := pk.vk, fixedValues := pk.fixedValues.map (·.map (fun v => fr (fromMont v))),
+        permutations := pk.permutations.map (·.map (fun v => fr (fromMont v))) }
+    let d := edom pk.vk.k sh.degree
+    let (pat, init) := if viaRead then (Gen.lagrDestructRead, Gen.pkInitRead) else (Gen.lagrDestructKeygen, Gen.pkInitKeygen)
+    match derivePKFull t Gen.lagrReturn pat init d bf sh.nPerm st with
+    | none => "panic"
+    | some r =>
+      s!"ok ek={d.extK} l0={ck r.l0} l_last={ck r.lLast} l_active_row={ck r.lActiveRow} fixed_polys={cks r.fixedPolys} fixed_cosets={cks r.fixedCosets} permutation_polys={cks r.permPolys} permutation_cosets={cks r.permCosets}"
+
+/-- `paramsreload`: read in format `fb`, write again in format `fa`. -/
+def paramsReloadAnswer (fa fb : Format) (bs : Bytes) : String :=
+  match readParams g1c g2c fb bs with
+  | .error e => e.code
+  | .ok (p, rest) =>
+    let re := writeParams g1c g2c fa p
+    s!"ok k={p.k} g={hexList p.g} gl={hexList p.gLagrange} g2={hexOf p.g2} sg2={hexOf p.sG2} rest={rest.length} rewrite={fmtBool (re == bs)}"
+
+/-- `perminv`: the state of the model's `Assembly` after the requested copies, checked against
+the union-find invariant and summarised by its classes: (1) `mapping` is a permutation of the
+cells; (2) the cycle of `mapping` through every cell consists of cells with the same `aux`
+representative and has `sizes[representative]` elements; then the classes are reported as
+`classes=<number> max=<largest> sum=<Σ (index+1)·(least index of the class of index)>`, which
+the harness computes from the plain closure of the requested copies. -/
+def permInvAnswer (k ncols : Nat) (copies : List (Nat × Nat × Nat × Nat)) : String :=
+  let n := 2 ^ k
+  match (Assembly.new n ncols).copies copies with
+  | none => "err bounds"
+  | some a =>
+    let cells : List Cell := (List.range ncols).flatMap (fun i => (List.range n).map (fun j => (i, j)))
+    let idx (c : Cell) : Nat := c.1 * n + c.2
+    -- (1) permutation
+    let seen := cells.foldl (fun (st : Option (Array Bool)) c =>
+      match st with
+      | none => none
+      | some fl =>
+        let m := get2 a.mapping c
+        if m.1 ≥ ncols ∨ m.2 ≥ n then none
+        else if fl[idx m]! then none else some (fl.set! (idx m) true)) (some (Array.replicate (ncols * n) false))
+    if seen.isNone then "INVARIANT-BROKEN:mapping-not-a-permutation" else
+    -- (2) cycles = aux classes, with the recorded sizes
+    let rec walk (fuel : Nat) (start cur : Cell) (rep : Cell) (len : Nat) : Option Nat :=
+      match fuel with
+      | 0 => none
+      | f + 1 =>
+        if get2 a.aux cur ≠ rep then none else
+        let nx := get2 a.mapping cur
+        if nx = start then some (len + 1) else walk f start nx rep (len + 1)
+    let okCycles := cells.all (fun c =>
+      let rep := get2 a.aux c
+      match walk (ncols * n + 1) c c rep 0 with
+      | none => false
+      | some len => len == get2 a.sizes rep)
+    if !okCycles then "INVARIANT-BROKEN:cycle-differs-from-aux-class-or-size" else
+    -- classes by representative
+    let least := cells.foldl (fun (arr : Array (Option Nat)) c =>
+      let r := idx (get2 a.aux c)
+      match arr[r]! with
+      | some _ => arr
+      | none => arr.set! r (some (idx c))) (Array.replicate (ncols * n) none)
+    let classes := (least.toList.filter Option.isSome).length
+    let mx := cells.foldl (fun m c => if get2 a.aux c = c then max m (get2 a.sizes c) else m) 0
+    let sum := cells.foldl (fun acc c => (acc + (idx c + 1) * ((least[idx (get2 a.aux c)]!).getD 0)) % 1000000007) 0
+    s!"ok classes={classes} max={mx} sum={sum}"
+
 def lagrangeSetup (k : Nat) (s : Fr) : List Fr := (setupS Zr.inv (dom k) s (2 ^ k)).gLagrange
 
 def answer (line : String) : String :=
@@ -153,6 +239,17 @@ def answer (line : String) : String :=
     match (kv "fmt" f).bind fmtOf, kvNat "nf" nf, kvNat "np" np, kvNat "deg" deg, parseBytes? hex with
     | some fmt, some nf, some np, some deg, some bs => pkAnswer fmt ⟨nf, np, deg, Gen.frS⟩ bs
     | _, _, _, _, _ => "bad-op"
+  | ["pkfull", via, f, nf, np, deg, bf, t, hex] =>
+    match kv "via" via, (kv "fmt" f).bind fmtOf, kvNat "nf" nf, kvNat "np" np, kvNat "deg" deg, kvNat "bf" bf,
+        kvNat "t" t, parseBytes? hex with
+    | some via, some fmt, some nf, some np, some deg, some bf, some t, some bs =>
+      if t = 0 ∨ (via ≠ "read" ∧ via ≠ "keygen") then "bad-op"
+      else pkFullAnswer (via == "read") fmt ⟨nf, np, deg, Gen.frS⟩ bf t bs
+    | _, _, _, _, _, _, _, _ => "bad-op"
+  | ["paramsreload", fa, fb, hex] =>
+    match (kv "wrote" fa).bind fmtOf, (kv "read" fb).bind fmtOf, parseBytes? hex with
+    | some fa, some fb, some bs => paramsReloadAnswer fa fb bs
+    | _, _, _ => "bad-op"
   | ["mvkparse", f, nf, np, deg, hex] =>
     match (kv "fmt" f).bind fmtOf, kvNat "nf" nf, kvNat "np" np, kvNat "deg" deg, parseBytes? hex with
     | some fmt, some nf, some np, some deg, some bs => mvkAnswer fmt ⟨nf, np, deg, Gen.frS⟩ bs
@@ -176,6 +273,10 @@ def answer (line : String) : String :=
     match kvNat "t" t, kvNat "k" k, kvNat "ncols" ncols, (kv "copies" copies).bind parseCopies? with
     | some t, some k, some ncols, some copies => if t = 0 ∨ k > Gen.frS then "bad-op" else permAnswer t k ncols copies
     | _, _, _, _ => "bad-op"
+  | ["perminv", k, ncols, copies] =>
+    match kvNat "k" k, kvNat "ncols" ncols, (kv "copies" copies).bind parseCopies? with
+    | some k, some ncols, some copies => if k > 12 then "bad-op" else permInvAnswer k ncols copies
+    | _, _, _ => "bad-op"
   | ["commit", k, s, vals] =>
     match kvNat "k" k, kvNat "s" s, parseNatList? vals with
     | some k, some s, some vals =>
